@@ -256,3 +256,65 @@ func H_C08_concurrent_same_type_cold() {
 	vAssert(p1 == w1 && p2 == w2, "C08 later calls on the cache the two first sights left: results as without a cache")
 	vReach("end")
 }
+
+// ---- round 4 ----
+
+// distinct types that print alike: types declared inside different functions under one name (their
+// reflect.Type.String() is the same, "valid.vSame"), with different rules under both tag names; every order of
+// calls, under both tags, real LRU of capacity 0..2, a plain map and the adversarial cache
+func vC08SameA(s string) interface{} {
+	type vSame struct {
+		A string `valid:"required,r1" alt:"r2"`
+		B string `alt:"required|need B"`
+	}
+	return &vSame{A: s}
+}
+
+func vC08SameB(s string) interface{} {
+	type vSame struct {
+		A string `valid:"r3" alt:"required,r3"`
+		B string `valid:"required" alt:"r1"`
+	}
+	return &vSame{A: s, B: "b"}
+}
+
+func vC08PrintAlike(cache int) {
+	vUNoFail = true
+	vGlobalRules()
+	defer func(c CacheEr) { cacheStructType = c }(cacheStructType)
+	switch cache {
+	case 0, 1, 2:
+		cacheStructType = NewLRU(cache)
+	case 3:
+		cacheStructType = &vMapCache{m: map[interface{}]interface{}{}}
+	case 4:
+		cacheStructType = &vAdvCache{}
+	}
+	for i := 0; i < 3; i++ {
+		is := vNum(i)
+		tag := "valid"
+		if vndBool("alt" + is) {
+			tag = "alt"
+		}
+		var src interface{}
+		if vndBool("b" + is) {
+			src = vC08SameB(vStr("A" + is))
+		} else {
+			src = vC08SameA(vStr("A" + is))
+		}
+		vULog = nil
+		err := NewVStruct(tag).Valid(src)
+		r := vNewRef()
+		r.tag = tag
+		r.global = map[string]bool{"r1": true, "r2": true, "r3": true}
+		r.top(src)
+		vCheckAgainstRef("C08 types that print alike, call "+is, err, r)
+	}
+	vReach("end")
+}
+
+func H_C08_types_that_print_alike_lru0() { vC08PrintAlike(0) }
+func H_C08_types_that_print_alike_lru1() { vC08PrintAlike(1) }
+func H_C08_types_that_print_alike_lru2() { vC08PrintAlike(2) }
+func H_C08_types_that_print_alike_map()  { vC08PrintAlike(3) }
+func H_C08_types_that_print_alike_adv()  { vC08PrintAlike(4) }
